@@ -8,6 +8,7 @@ import (
 
 	codectypes "github.com/cosmos/cosmos-sdk/codec/types"
 	sdk "github.com/cosmos/cosmos-sdk/types"
+	banktypes "github.com/cosmos/cosmos-sdk/x/bank/types"
 	slashingtypes "github.com/cosmos/cosmos-sdk/x/slashing/types"
 	stakingtypes "github.com/cosmos/cosmos-sdk/x/staking/types"
 
@@ -20,6 +21,7 @@ import (
 
 	abcitypes "github.com/cometbft/cometbft/abci/types"
 
+	consumertypes "github.com/cosmos/interchain-security/v7/x/ccv/consumer/types"
 	providertypes "github.com/cosmos/interchain-security/v7/x/ccv/provider/types"
 	ccvtypes "github.com/cosmos/interchain-security/v7/x/ccv/types"
 )
@@ -271,6 +273,11 @@ func (w *World) buildTx(c *Chain, a map[string]any) (*TxSpec, error) {
 			msg.Metadata = &providertypes.ConsumerMetadata{Name: "n2", Description: "d2", Metadata: "m2"}
 		}
 		tx.Msgs = []sdk.Msg{msg}
+	case "Fees":
+		// any transaction pays its fee into the fee collector: that is how fees arise on a consumer
+		tx.Signer = w.acct("u1")
+		tx.Fee = sdk.NewCoins(sdk.NewCoin(gets(a, "denom"), sdkmath.NewInt(geti(a, "amt"))))
+		tx.Msgs = []sdk.Msg{banktypes.NewMsgSend(tx.Signer.Addr(), w.acct("rel4").Addr(), sdk.NewCoins(sdk.NewInt64Coin(BondDenom, 1)))}
 	case "UpdateParams":
 		params := c.PApp.ProviderKeeper.GetParams(c.GetContext())
 		if has(a, "M") {
@@ -579,6 +586,61 @@ func (w *World) Block(chain string, dt int64, absent []string, actions ...map[st
 		ab[k] = true
 	}
 	return c.ProduceBlock(txs, dt, ab)
+}
+
+// ConsumerGovExec sets the consumer's reward denoms through its own governance authority (router-level, as x/gov does).
+func (w *World) ConsumerGovExec(name string, rewardDenoms, providerDenoms []string) {
+	c := w.Chains[name]
+	if c == nil || c.Halted {
+		return
+	}
+	ctx := c.GetContext()
+	params := c.CApp.ConsumerKeeper.GetConsumerParams(ctx)
+	params.RewardDenoms = rewardDenoms
+	params.ProviderRewardDenoms = providerDenoms
+	msg := &consumertypes.MsgUpdateParams{Authority: c.CApp.ConsumerKeeper.GetAuthority(), Params: params}
+	handler := c.CApp.MsgServiceRouter().Handler(msg)
+	cctx, write := ctx.CacheContext()
+	code := 0
+	if _, err := handler(cctx, msg); err != nil {
+		code = 2
+	} else {
+		write()
+	}
+	pctx, _ := c.GetContext().CacheContext()
+	w.rec.emit(c.Name, "Tx:ConsumerUpdateParams", map[string]any{"rewardDenoms": rewardDenoms, "gov": true}, map[string]any{"code": code, "log": ""}, w.projectConsumer(c, pctx))
+}
+
+// CompleteTransferChannel finishes the handshake of the transfer channel the consumer opened in its OnChanOpenAck.
+func (w *World) CompleteTransferChannel(name string) error {
+	c, lk := w.Chains[name], w.Links[name]
+	if c == nil || lk == nil {
+		return fmt.Errorf("no chain")
+	}
+	w.hsConsumer = name
+	cChan := c.CApp.ConsumerKeeper.GetDistributionTransmissionChannel(c.GetContext())
+	if cChan == "" {
+		return fmt.Errorf("no transfer channel initiated")
+	}
+	a := chanAttempt{Order: channeltypes.UNORDERED, PPort: "transfer", CPort: "transfer", Version: "ics20-1", PConn: lk.PConn, CConn: lk.CConn}
+	pChan, ok := w.chanTry(name, a, cChan)
+	if !ok {
+		return fmt.Errorf("transfer try failed")
+	}
+	if !w.chanAck(name, a, cChan, pChan) {
+		return fmt.Errorf("transfer ack failed")
+	}
+	if !w.chanConfirm(name, a, cChan, pChan) {
+		return fmt.Errorf("transfer confirm failed")
+	}
+	lk.CXfer, lk.PXfer = cChan, pChan
+	return nil
+}
+
+// VoucherDenom is the denom under which `base` sent by consumer `name` over its transfer channel appears on the provider.
+func (w *World) VoucherDenom(name, base string) string {
+	lk := w.Links[name]
+	return ccvtypes.ParseDenomTrace("transfer/" + lk.PXfer + "/" + base).IBCDenom()
 }
 
 // providerLive counts bonded, unjailed provider validators.
